@@ -40,6 +40,10 @@ def log(*a):
     print(*a, flush=True)
 
 
+import itertools
+_REPLAY_SEQ = itertools.count()
+
+
 class Check:
     def __init__(self, pid, tier, seed=None, level="model_checking"):
         self.pid = pid
@@ -277,7 +281,7 @@ class Check:
 
     # ---------------------------------------------------------------- replay
     def replay(self, comp, emitted, variant="", extra=None, timeout=1800, label=None, workers=None):
-        out = os.path.join(self.scratch, "replay-%s-%s-%d.json" % (comp, variant or "default", len(self.tlc_runs) + self.behaviours_replayed))
+        out = os.path.join(self.scratch, "replay-%s-%s-%d.json" % (comp, variant or "default", next(_REPLAY_SEQ)))   # unique under parallel()
         args = ["replay", comp, "-in", emitted, "-out", out, "-workers", workers or NCPU]
         if variant:
             args += ["-variant", variant]
